@@ -232,6 +232,24 @@ Fixpoint keep_by {A} (l : list A) (keep : list bool) : list A :=
   end.
 Definition s_retain (s : list byte) (keep : list bool) : list byte := concat (keep_by (chars s) keep).
 
+(* drain(a..b) once the bounds are resolved: the caller takes [front] characters from the front of
+   the range, then [back] from its back (yielded last to first); the rest is dropped with the Drain,
+   and the range leaves the string *)
+Record sdrained := mkSdrained {
+  sd_rest : list byte;                (* the string afterwards *)
+  sd_front : list (list byte);        (* characters yielded by next(), in order *)
+  sd_back : list (list byte);         (* characters yielded by next_back(), in the order yielded *)
+  sd_left : list (list byte)          (* never yielded *)
+}.
+Definition s_drain (s : list byte) (a b : N) (front back : nat) : sout sdrained :=
+  match s_replace_range s a b [] with
+  | SPanic => SPanic
+  | SRet rest =>
+      let cs := chars (firstn (N.to_nat b - N.to_nat a) (skipn (N.to_nat a) s)) in
+      let r1 := skipn front cs in
+      SRet (mkSdrained rest (firstn front cs) (firstn back (rev r1)) (firstn (length r1 - back) r1))
+  end.
+
 (* ---------- String::from_utf16_in: char::decode_utf16, then push each char ---------- *)
 Definition surrogate_pair (hi lo : N) : N := 65536 + (hi - 55296) * 1024 + (lo - 56320).
 Fixpoint decode_utf16 (us : list N) : option (list N) :=
